@@ -4,7 +4,7 @@
    (creation order in a growing network): setHelper(q) changes no property ranked below q other than q itself and leaves alone every
    evaluator-driven tree all of whose inputs rank below q. *)
 From KDB Require Import Util UtilProofs PropDefs PropFlags PropLink PropLinkBasics PropLinkOps PropLinkTheorems PropSim PropMixedLazy.
-From KDB Require PropAbs PropAbsProofs PropAbsLazy PropProofs PropReg PropSimLazy.
+From KDB Require PropAbs PropAbsProofs PropAbsLazy PropProofs PropReg PropSimLazy PropGrowMore PropGrowLazyMore.
 Module A := PropAbs.
 Module AP := PropAbsProofs.
 Module L := PropAbsLazy.
@@ -367,6 +367,21 @@ Section Rank.
       apply IH; [intros rb' ls' q' Hi; apply Hall; right; exact Hi| |exact Hr]. pose proof (Hall r0 ls0 q0 (or_introl eq_refl) Hb0). lia.
   Qed.
 
+
+  Lemma rord_weaken rk w : forall l lo lo', lo <= lo' -> rord rk w l lo' -> rord rk w l lo.
+  Proof. destruct l as [|rb r]; intros lo lo' Hle H; cbn [rord] in *; [exact I|]. destruct H as (ls & q & Hb & Hlo & Hr). exists ls, q. split; [exact Hb|]. split; [lia|exact Hr]. Qed.
+
+  (* dropping entries keeps the order *)
+  Lemma rord_filter rk w w' (f : nat * nat -> bool) : forall l lo,
+    (forall rb, In rb l -> f rb = true -> bview w' (snd rb) = bview w (snd rb)) -> rord rk w l lo -> rord rk w' (filter f l) lo.
+  Proof.
+    induction l as [|rb r IH]; intros lo Hall H; cbn [rord filter] in *; [exact I|]. destruct H as (ls & q & Hb & Hlo & Hr).
+    destruct (f rb) eqn:Ef.
+    - cbn [rord]. exists ls, q. rewrite (Hall rb (or_introl eq_refl) Ef). split; [exact Hb|]. split; [exact Hlo|].
+      apply IH; [intros rb' Hi; apply Hall; right; exact Hi|exact Hr].
+    - apply (rord_weaken rk w' _ lo (S (rk q))); [lia|]. apply IH; [intros rb' Hi; apply Hall; right; exact Hi|exact Hr].
+  Qed.
+
   Lemma RANKED_same rk M w w' :
     (forall b, bview w' b = bview w b) -> w_evps w' = w_evps w -> (forall y, lookup (w_props w') y <> None -> lookup (w_props w) y <> None) ->
     RANKED rk M w -> RANKED rk M w'.
@@ -473,6 +488,35 @@ Section Rank.
       + intros y Hy Hn. cbn [set_obs w_props] in Hy. pose proof (proj2 (se_pdom _ _ _ _ _ _ E y)) as D. unfold pview in D. rewrite Hn in D. specialize (D eq_refl).
         destruct (lookup (w_props w1) y); [discriminate D|contradiction].
     - (* PBind *) destruct Ho as (Hp & Hmode). exists (bump rk p M), (S M). exact (RANKED_bind_fresh rk M fuel w p e m w' HML HNE HR HRK Hp Hmode H).
+    - (* PReset *) cbn [step1] in H. destruct (lookup (w_props w) p) as [pr|] eqn:Hp; [|discriminate H].
+      destruct (pr_updater pr) as [b|] eqn:Hu; [|inversion H; subst w'; exists rk, M; exact HRK].
+      destruct (destroy_binding w b) as [w1 [ex|]] eqn:Hd; [discriminate H|].
+      destruct (destroy_binding_pinvg _ _ _ _ _ _ w b w1 Hinv (fun z => z) Hd) as (_ & Bb & Bo & _ & P1 & _).
+      destruct (lookup (w_props w1) p) as [pr1|] eqn:Hp1; [|discriminate H]. inversion H; subst w'. clear H.
+      assert (Pv : pview w p = Some (psigs_of pr)) by (unfold pview; rewrite Hp; reflexivity).
+      destruct (pi_upd _ _ _ _ _ _ _ Hinv p _ b Pv Hu (fun z => z)) as (ls & Ebv).
+      unfold bview in Ebv. destruct (get_bind w b) as [x|] eqn:Hb; [|discriminate Ebv].
+      destruct (PropGrowLazyMore.destroy_shape w b x w1 None Hb Hd) as (Ev1 & _ & _).
+      set (w2 := set_props w1 (bind_key (w_props w1) p (prop_set_updater pr1 None))).
+      assert (B2 : forall c, bview w2 c = if Nat.eqb c b then None else bview w c).
+      { intros c. change (bview w2 c) with (bview w1 c). destruct (Nat.eqb_spec c b) as [->|Hne]; [exact Bb|exact (Bo c Hne)]. }
+      exists rk, M. split; [|split].
+      + intros c ls0 q lf y Hc. rewrite B2 in Hc. destruct (Nat.eqb c b); [discriminate Hc|exact (K1 c ls0 q lf y Hc)].
+      + intros id st Hst. change (w_evps w2) with (w_evps w1) in Hst. rewrite Ev1 in Hst.
+        assert (Keep : forall id' st' rb, nth_error (w_evps w) id' = Some st' -> In rb (ep_registry st') ->
+                  (id' <> b_evp x \/ fst rb <> b_regid x) -> bview w2 (snd rb) = bview w (snd rb)).
+        { intros id' st' [rid c] Hs Hi Hor. cbn [snd fst] in *. rewrite B2. destruct (Nat.eqb_spec c b) as [->|]; [|reflexivity]. exfalso.
+          pose proof (HR id' st' rid b Hs Hi) as Hk. unfold PropReg.bkey in Hk. rewrite Hb in Hk. inversion Hk; subst. destruct Hor as [Ho'|Ho']; apply Ho'; reflexivity. }
+        destruct (nth_error (w_evps w) (b_evp x)) as [ep0|] eqn:He0.
+        * destruct (Nat.eq_dec (b_evp x) id) as [<-|Hne].
+          -- rewrite nth_upd_same in Hst by (apply nth_error_Some; congruence). inversion Hst; subst st. cbn [ep_registry].
+             apply (rord_filter rk w w2); [|exact (K2 _ ep0 He0)].
+             intros rb Hi Hf. apply (Keep (b_evp x) ep0 rb He0 Hi). right. cbn in Hf. destruct (Nat.eqb_spec (fst rb) (b_regid x)); [discriminate Hf|assumption].
+          -- rewrite nth_upd_other in Hst by exact Hne. apply (rord_transfer rk rk w w2 _ 0); [|exact (K2 id st Hst)].
+             intros rb Hi. split; [apply (Keep id st rb Hst Hi); left; auto|auto].
+        * apply (rord_transfer rk rk w w2 _ 0); [|exact (K2 id st Hst)].
+          intros rb Hi. split; [|auto]. destruct (Nat.eq_dec id (b_evp x)) as [->|Hne]; [congruence|apply (Keep id st rb Hst Hi); left; exact Hne].
+      + intros y Hy. apply K3. unfold w2 in Hy; cbn [set_props w_props] in Hy. rewrite lookup_bind in Hy. destruct (Nat.eqb_spec y p) as [E|E]; [rewrite E, Hp; discriminate|rewrite <- P1; exact Hy].
     - (* BevNew *) cbn [step1] in H. destruct (lookup (w_bevs w) e); [discriminate H|]. inversion H; subst w'. exists rk, M. split; [|split].
       + intros b ls q lf y Hb. exact (K1 b ls q lf y Hb).
       + intros id st Hst. cbn [set_bevs set_evps w_evps] in Hst.
